@@ -49,6 +49,11 @@ Definition mnorm_p_sum (pw : T -> T) (m : matrix (SA S)) : res T :=
 Definition mnorm_frob (m : matrix (SA S)) : res T :=
   let* s := mnorm_p_sum (fun x => x * x) m in Ok (sqrt s).
 
+(* norm_p with the two libm calls as parameters (external calls are parameters of the model):
+   pw x = powf(x, p), root s = powf(s, 1/p) *)
+Definition mnorm_p (pw root : T -> T) (m : matrix (SA S)) : res T :=
+  let* s := mnorm_p_sum pw m in Ok (root s).
+
 (* output of the correspondence check (kind mat.norms): norm_1, norm_inf, norm_max, norm_frob *)
 Definition mat_norms (flat : T -> list Z) (m : matrix (SA S)) : list Z :=
   fl_res flat (mnorm_1 m) ++ fl_res flat (mnorm_inf m) ++ fl_res flat (mnorm_max m) ++ fl_res flat (mnorm_frob m).
